@@ -9,6 +9,7 @@ package docgen
 
 import (
 	"fmt"
+	"strings"
 
 	"verif/internal/jv"
 	"verif/internal/refschema"
@@ -688,6 +689,10 @@ func (b *builder) operation(tp tpl, atPathLevel map[string]bool, method string) 
 	for i := 0; i < n; i++ {
 		in := b.pick([]string{"query", "query", "header", "cookie"}, "opin")
 		name := b.pick([]string{"q", "lim", "f", "X-Trace", "sid"}, "opname")
+		if in != "header" && b.chance(4, "opnamecase") {
+			// names are case-sensitive (outside headers): Q next to q is a different parameter
+			name = strings.ToUpper(name[:1]) + name[1:]
+		}
 		key := in + ":" + name
 		if seen[key] {
 			continue
